@@ -36,6 +36,8 @@ def run_worker(modname, tier, cond_name, timeout_wall, scratch, extra_env=None, 
     env = dict(os.environ)
     env["VERIF_SCRATCH"] = os.path.join(scratch, "w_" + hashlib.sha1((mode + cond_name + str(payload)).encode()).hexdigest()[:12])  # private to this worker
     env["PYTHONPATH"] = ROOT + os.pathsep + env.get("PYTHONPATH", "")
+    if os.environ.get("VERIF_REPO"):
+        env["PYTHONPATH"] = os.environ["VERIF_REPO"] + "/src" + os.pathsep + env["PYTHONPATH"]
     env["PYTHONHASHSEED"] = env.get("PYTHONHASHSEED", "0")
     env.pop("CI", None)
     env.pop("GITHUB_ACTIONS", None)
@@ -85,6 +87,8 @@ def main(argv=None):
     seed = int(os.environ.get("VERIF_SEED", "0") or 0)
     t0 = time.time()
     sys.path.insert(0, ROOT)
+    if os.environ.get("VERIF_REPO"):
+        sys.path.insert(0, os.environ["VERIF_REPO"] + "/src")
     modname = harness_module(pid)
     scratch = tempfile.mkdtemp(prefix=f"verif-{pid}-")
     os.environ["VERIF_SCRATCH"] = scratch
